@@ -574,7 +574,16 @@ func (generator *BuilderGenerator) structObjectToBuilder(schemas Schemas, schema
 			continue
 		}
 
-		builder.Options = append(builder.Options, generator.structFieldToOption(field))
+		option := generator.structFieldToOption(field)
+
+		// a field typed by a reference to a scalar is bound by the constraints of that scalar
+		if field.Type.IsRef() {
+			if resolvedType := schemas.ResolveToType(field.Type); resolvedType.IsScalar() {
+				WithTypeConstraints(resolvedType.AsScalar().Constraints)(&option.Assignments[0])
+			}
+		}
+
+		builder.Options = append(builder.Options, option)
 	}
 
 	return builder
